@@ -40,12 +40,18 @@ MSG = {"Point lies outside of the specified simplex.": "OutsideSimplex",
        "Candidate vertex is inside the hull.": "InsideHull"}
 
 # a decision whose exact margin is below this is "not robustly that of exact
-# arithmetic": the case's geometric verdicts are discarded (and counted)
+# arithmetic": the case's tolerance-dependent geometric verdicts are discarded (and counted)
 GEOMETRIC = ("volumes_sum_to_hull", "delaunay", "facet_in_at_most_two", "every_point_a_vertex", "internal_error",
              "degenerate_simplex")
 # after a gap insertion only these are discarded: the volume clause holds "up to the sliver tolerance", Delaunay is
-# promised for general position; facet multiplicity, orphaned vertices and internal errors are always reported
+# promised for general position
 TOLERANCE_QUALIFIED = ("volumes_sum_to_hull", "delaunay")
+# NOT covered by the sliver tolerance of C03, hence reported also after a gap insertion, whatever the margins of the
+# predicate decisions were: a facet that belongs to more than two simplices, and add_point raising
+# RuntimeError('Broken triangulation') or any other internal error.  (On a history that met the trigger of F31 / F32
+# they are attributed to that finding, like every geometric clause.)  An orphaned vertex after a gap insertion is
+# reported too: as F33 when its trigger is met, see _after_step.
+ALWAYS_REPORTED_AFTER_GAP = ("facet_in_at_most_two", "internal_error")
 # after one of these the object is no triangulation any more: the case ends there
 BROKEN_OBJECT = ("reject_unchanged", "state_unreadable", "index_consistent", "every_point_a_vertex", "facet_in_at_most_two",
                  "degenerate_simplex", "internal_error", "report_exact", "vertices_appended_once")
@@ -57,6 +63,15 @@ F33 = ("F33 a vertex attached only by sliver simplices (a point within 1e-7 of a
 F32 = ("F32 Triangulation.point_in_cicumcircle: the (1+1e-8) tolerance puts a simplex into the cavity although the new "
        "point is outside its circumsphere; under strongly anisotropic transforms the cavity is not star-shaped and "
        "the new simplices overlap")
+
+# candidates found once 'facet_in_at_most_two' / 'internal_error' were reported after a gap insertion (NOT listed in
+# known_findings.json by this module: until they are, the thorough tier reports them as violations)
+F34 = ("F34 sliver simplices left behind by a point inserted within 1e-7 (barycentric) of a hull facet: a later insertion "
+       "whose cavity or visible hull touches such a sliver decides circumsphere / orientation / flatness on it by rounding "
+       "noise and keeps only part of the star: the new simplices overlap and a facet belongs to more than two simplices")
+F35 = ("F35 Triangulation.locate_point: fast_2d_point_in_simplex divides by the simplex area computed from untranslated "
+       "coordinates; for a sliver simplex far from the origin the area evaluates to 0.0 and add_point raises "
+       "ZeroDivisionError")
 
 FRAGILE = {"circ": 1e-11, "orient": 1e-9, "flat": 1e-3, "reduce": 1e-11, "locate": 1e-11}
 
@@ -234,6 +249,7 @@ class Oracle:
         self.min_margin = {}
         self.sliver = Fr(0)
         self.would_fail_fragile = 0
+        self.discarded = {}       # clause|after_gap / clause|no_gap -> verdicts not reported because of fragility
         self.hanging = None       # (step, facet): trigger of finding F31, see GEOMETRIC / F31 below
         self.tolerated = None     # (step, simplex): trigger of finding F32
         self.raw = []             # every clause that tripped, also the unreported ones: (clause, step)
@@ -244,10 +260,16 @@ class Oracle:
         if clause in GEOMETRIC:
             # "every point is a vertex of some simplex" is not qualified by the sliver tolerance: after a gap
             # insertion it is reported (as F33 when its trigger is met, see _after_step), never discarded
-            if self.fragile or (self.near_degenerate and clause in TOLERANCE_QUALIFIED):
+            if self.near_degenerate and clause in ALWAYS_REPORTED_AFTER_GAP:
+                discard = False
+            else:
+                discard = self.fragile or (self.near_degenerate and clause in TOLERANCE_QUALIFIED)
+            if discard:
                 # decisions with a tiny exact margin / a point placed 2e-8 outside a facet: the regime of the
                 # documented 1e-8 tolerances, never reported (counted)
                 self.would_fail_fragile += 1
+                k = clause + ("|after_gap" if self.near_degenerate else "|no_gap")
+                self.discarded[k] = self.discarded.get(k, 0) + 1
                 return
             if self.hanging is not None:
                 # DESIGN 4.7: on a history that met the trigger of the finding the geometric clauses are
@@ -260,6 +282,16 @@ class Oracle:
                 clause, msg = F32, (f"{msg}; at step {self.tolerated[0]} point_in_cicumcircle accepted simplex "
                                     f"{self.tolerated[1]} whose circumsphere does not contain the point (within 1e-8)")
                 self.errors.append((clause, msg, step))
+                return
+            if self.near_degenerate and self.fragile and clause == "facet_in_at_most_two":
+                # reported, under its own signature: a gap insertion earlier in the history AND a predicate decision
+                # with a tiny exact margin (the trigger; exactly the verdicts that used to be discarded as fragile)
+                kinds = ", ".join(f"{k}: {v}" for k, v in sorted(self.fragile_kinds.items()))
+                self.errors.append((F34, f"{msg}; a point was inserted 2e-8 outside a hull facet earlier and {self.fragile} "
+                                         f"predicate decisions had a tiny exact margin ({kinds})", step))
+                return
+            if self.near_degenerate and clause == "internal_error" and "ZeroDivisionError" in msg and self.d == 2:
+                self.errors.append((F35, f"{msg}; a point was inserted 2e-8 outside a hull facet earlier", step))
                 return
         self.errors.append((clause, msg, step))
 
@@ -364,9 +396,10 @@ class Oracle:
                         and self.hanging is None and self.tolerated is None:
                     v = int(msg.split()[1])
                     held = sorted(simp(x) for x in before[2][v]) if v < len(before[2]) else []
-                    if held and all(rel_volume([X.fr_point(before[0][i]) for i in x]) < Fr(1, 10 ** 7) for x in held):
+                    if held and all(rel_volume([X.fr_point(before[0][i]) for i in x]) < Fr(1, 10 ** 6) for x in held):
+                        # (a point 2e-8 outside a facet spans slivers of relative volume 1e-8 .. a few 1e-7 with it)
                         self.errors.append((F33, f"{msg}; before this insertion it was attached only by the sliver simplices "
-                                                 f"{held} (relative volume < 1e-7)", step))
+                                                 f"{held} (relative volume < 1e-6)", step))
                         self.raw.append((clause, step))
                         continue
                 self.err(clause, msg, step)
@@ -561,7 +594,7 @@ def run(chk: Check) -> int:
     hist = {"kind": {}, "path": {}, "dim": {}, "family": {}, "hint": {}, "transform": {}, "metric_scale": {}, "offset": {}}
     tot = {"steps": 0, "pred_checked": 0, "fragile_decisions": 0, "fragile_cases": 0, "general_position_cases": 0,
            "degenerate_initial_skipped": 0, "would_fail_but_fragile": 0, "hull_extension_deleting_old_simplices": 0}
-    fragile_kinds, min_margin = {}, {}
+    fragile_kinds, min_margin, discarded = {}, {}, {}
 
     def bump(h, k):
         hist[h][str(k)] = hist[h].get(str(k), 0) + 1
@@ -596,6 +629,8 @@ def run(chk: Check) -> int:
             fragile_kinds[k] = fragile_kinds.get(k, 0) + v
         for k, v in orc.min_margin.items():
             min_margin[k] = min(min_margin.get(k, 1.0), v)
+        for k, v in orc.discarded.items():
+            discarded[k] = discarded.get(k, 0) + v
         if len(run_["steps"]) >= 4 and run_["T"] is not None:
             chk.sample({"dim": run_["d"], "initial": run_["init"], "transform_diag": run_["T"],
                         "insertions": [(i["kind"], i["p"], i["hint_kind"]) for i in run_["inserts"]][:8],
@@ -658,6 +693,7 @@ def run(chk: Check) -> int:
                                     "(a located / hinted simplex was not in the triangulation)", "")
     chk.extra.update({"histograms": hist, "totals": tot, "fragile_decisions_by_predicate": fragile_kinds,
                       "smallest_robust_margin_by_predicate": min_margin, "fragility_thresholds": FRAGILE,
+                      "verdicts_discarded_as_fragile_by_clause": discarded,
                       "legal_histories_per_coq": legal, "cases_compared_in_coq": len(cases), "mismatches": len(mism),
                       "exhaustive": False,
                       "not_proved": "C03_tiling_partial: facet multiplicity <= 2, volumes = hull volume, Delaunay -- "
